@@ -194,132 +194,43 @@ theorem allocGroup_names (fs : List Func) (env : Env) (s : St) (env' : Env) (s' 
 
 /-! ### parameters -/
 
-theorem bindDims_rn (ds : List Name) (dims : List Nat) (env : Env) :
-    bindDims (rnNames ν env.length ds) dims (rnEnv ν env) = M.map (rnEnv ν) (bindDims ds dims env) := by
-  induction ds generalizing dims env with
+theorem bindDimRefs_rn (ds : List Name) (l : Loc) (k : Nat) (env : Env) :
+    bindDimRefs (rnNames ν env.length ds) l k (rnEnv ν env) = M.map (rnEnv ν) (bindDimRefs ds l k env) := by
+  induction ds generalizing k env with
   | nil => funext s; rfl
   | cons d ds ih =>
-    cases dims with
-    | nil =>
-      simp only [rnNames, bindDims]
-      funext s
-      simp only [M.map, bind_eq, M.bind]
-      cases h : alloc (Val.int 0) s with
-      | ok c s1 =>
-        simp only
-        have := ih [] ((d, c) :: env)
-        rw [rnEnv_cons] at this
-        simp only [List.length_cons] at this
-        rw [this]
-        simp only [M.map, bind_eq, M.bind]
-      | exc e s1 => rfl
-      | stop k s1 => rfl
-    | cons n ns =>
-      simp only [rnNames, bindDims]
-      funext s
-      simp only [M.map, bind_eq, M.bind]
-      cases h : alloc (Val.int (Int32.ofNat n)) s with
-      | ok c s1 =>
-        simp only
-        have := ih ns ((d, c) :: env)
-        rw [rnEnv_cons] at this
-        simp only [List.length_cons] at this
-        rw [this]
-        simp only [M.map, bind_eq, M.bind]
-      | exc e s1 => rfl
-      | stop k s1 => rfl
-
-theorem bindDims_names (ds : List Name) (dims : List Nat) (env : Env) (s : St) (env' : Env) (s' : St)
-    (h : bindDims ds dims env s = .ok env' s') : names env' = ds.reverse ++ names env := by
-  induction ds generalizing dims env s with
-  | nil => simp only [bindDims, pure, M.pure] at h; injection h with h1; simp [← h1]
-  | cons d ds ih =>
-    cases dims with
-    | nil =>
-      simp only [bindDims, bind_eq, M.bind] at h
-      cases h1 : alloc (Val.int 0) s with
-      | ok c s1 => rw [h1] at h; simp only at h; rw [ih _ _ _ h]; simp
-      | exc e s1 => rw [h1] at h; cases h
-      | stop k s1 => rw [h1] at h; cases h
-    | cons n ns =>
-      simp only [bindDims, bind_eq, M.bind] at h
-      cases h1 : alloc (Val.int (Int32.ofNat n)) s with
-      | ok c s1 => rw [h1] at h; simp only at h; rw [ih _ _ _ h]; simp
-      | exc e s1 => rw [h1] at h; cases h
-      | stop k s1 => rw [h1] at h; cases h
-
-theorem bindDimsArr_rn (ds : List Name) (l : Loc) (env : Env) :
-    bindDimsArr (rnNames ν env.length ds) l (rnEnv ν env) = M.map (rnEnv ν) (bindDimsArr ds l env) := by
-  funext s
-  simp only [bindDimsArr, M.map, bind_eq, M.bind]
-  cases arrDims l s with
-  | ok dims s2 =>
-    simp only
-    rw [bindDims_rn]
+    simp only [rnNames, bindDimRefs]
+    funext s
     simp only [M.map, bind_eq, M.bind]
-  | exc e s2 => rfl
-  | stop k s2 => rfl
+    cases h : alloc (Val.dimRef l k) s with
+    | ok c s1 =>
+      simp only
+      have := ih (k + 1) ((d, c) :: env)
+      rw [rnEnv_cons] at this
+      simp only [List.length_cons] at this
+      rw [this]
+      simp only [M.map, bind_eq, M.bind]
+    | exc e s1 => rfl
+    | stop c s1 => rfl
 
-theorem bindDimsCells_rn (ds : List Name) (m : M (List Loc)) (env : Env) :
-    bindDimsCells (rnNames ν env.length ds) m (rnEnv ν env) = M.map (rnEnv ν) (bindDimsCells ds m env) := by
-  funext s
-  simp only [bindDimsCells, M.map, bind_eq, M.bind]
-  cases m s with
-  | ok cells s2 => simp only [pure, M.pure, bindNames_rn]
-  | exc e s2 => rfl
-  | stop k s2 => rfl
+theorem bindDimRefs_names (ds : List Name) (l : Loc) (k : Nat) (env : Env) (s : St) (env' : Env) (s' : St)
+    (h : bindDimRefs ds l k env s = .ok env' s') : names env' = ds.reverse ++ names env := by
+  induction ds generalizing k env s with
+  | nil => simp only [bindDimRefs, pure, M.pure] at h; injection h with h1; simp [← h1]
+  | cons d ds ih =>
+    simp only [bindDimRefs, bind_eq, M.bind] at h
+    cases h1 : alloc (Val.dimRef l k) s with
+    | ok c s1 => rw [h1] at h; simp only at h; rw [ih _ _ _ h]; simp
+    | exc e s1 => rw [h1] at h; cases h
+    | stop c s1 => rw [h1] at h; cases h
 
 theorem bindDimsOf_rn (ds : List Name) (l : Loc) (env : Env) :
-    bindDimsOf (rnNames ν env.length ds) l (rnEnv ν env) = M.map (rnEnv ν) (bindDimsOf ds l env) := by
-  funext s
-  simp only [bindDimsOf, M.map, bind_eq, M.bind]
-  cases load l s with
-  | ok v s1 =>
-    simp only
-    split
-    · rw [bindDimsCells_rn]; simp only [M.map, bind_eq, M.bind]
-    · rw [bindDimsCells_rn]; simp only [M.map, bind_eq, M.bind]
-    · rfl
-    · rfl
-    · rw [bindDimsArr_rn]; simp only [M.map, bind_eq, M.bind]
-  | exc e s1 => rfl
-  | stop k s1 => rfl
-
-theorem bindDimsArr_names (ds : List Name) (l : Loc) (env : Env) (s : St) (env' : Env) (s' : St)
-    (h : bindDimsArr ds l env s = .ok env' s') : names env' = ds.reverse ++ names env := by
-  simp only [bindDimsArr, bind_eq, M.bind] at h
-  cases h2 : arrDims l s with
-  | ok dims s2 => rw [h2] at h; exact bindDims_names _ _ _ _ _ _ h
-  | exc e s2 => rw [h2] at h; cases h
-  | stop k s2 => rw [h2] at h; cases h
-
-theorem bindDimsCells_names (ds : List Name) (m : M (List Loc)) (env : Env) (s : St) (env' : Env) (s' : St)
-    (h : bindDimsCells ds m env s = .ok env' s') : names env' = ds.reverse ++ names env := by
-  simp only [bindDimsCells, bind_eq, M.bind] at h
-  cases h2 : m s with
-  | ok cells s2 =>
-    rw [h2] at h
-    simp only [pure, M.pure] at h
-    injection h with h3 h4
-    rw [← h3, names_bindNames]
-  | exc e s2 => rw [h2] at h; cases h
-  | stop k s2 => rw [h2] at h; cases h
+    bindDimsOf (rnNames ν env.length ds) l (rnEnv ν env) = M.map (rnEnv ν) (bindDimsOf ds l env) :=
+  bindDimRefs_rn ds l 0 env
 
 theorem bindDimsOf_names (ds : List Name) (l : Loc) (env : Env) (s : St) (env' : Env) (s' : St)
-    (h : bindDimsOf ds l env s = .ok env' s') : names env' = ds.reverse ++ names env := by
-  simp only [bindDimsOf, bind_eq, M.bind] at h
-  cases h1 : load l s with
-  | ok v s1 =>
-    rw [h1] at h
-    simp only at h
-    split at h
-    · exact bindDimsCells_names _ _ _ _ _ _ h
-    · exact bindDimsCells_names _ _ _ _ _ _ h
-    · cases h
-    · cases h
-    · exact bindDimsArr_names _ _ _ _ _ _ h
-  | exc e s1 => rw [h1] at h; cases h
-  | stop k s1 => rw [h1] at h; cases h
+    (h : bindDimsOf ds l env s = .ok env' s') : names env' = ds.reverse ++ names env :=
+  bindDimRefs_names ds l 0 env s env' s' h
 
 theorem rnNames_isEmpty (d : Nat) (xs : List Name) : (rnNames ν d xs).isEmpty = xs.isEmpty := by
   cases xs <;> rfl
